@@ -73,7 +73,6 @@ pub struct GenCfg {
     /// corresponds to a recorded finding (see known_findings.json) and is exercised by a probe:
     ///  dup_select      the same column selected twice / identity shadow (C05-same-column-merged)
     ///  dup_names       same-named columns of a join left un-aliased (C05-dedup-select-items)
-    ///  neg_neg         `-(-x)` (C02-double-negation)
     ///  open_take       `take a..` with a > 1 (C07-offset-without-limit)
     ///  drop_agg        every aggregate-derived column dropped later (C01-aggregate-pruned)
     ///  wild_helpers    helper-column constructs in programs with wildcard relations (C05-wildcard-helper-leak)
@@ -453,21 +452,9 @@ impl<'t, 'd> Gen<'t, 'd> {
         }
     }
 
-    fn neg(&mut self, frame: &Frame, e: Expr) -> Expr {
-        // safe operands: their SQL cannot start with a minus, whatever is inlined or folded
-        let safe = match &e {
-            Expr::Col(c) => !frame.cols.get(c.idx).map(|c| c.computed).unwrap_or(true),
-            Expr::Lit(Val::Int(i)) => *i >= 0,
-            Expr::Lit(Val::Float(f)) => *f >= 0.0,
-            Expr::Bin(op, ..) => matches!(op, BinOp::Add | BinOp::Sub | BinOp::Mul | BinOp::Mod | BinOp::DivF | BinOp::DivI | BinOp::Pow),
-            _ => false,
-        };
-        if !safe {
-            if !self.haz("neg_neg") {
-                return e;
-            }
-            self.touch("neg_neg");
-        }
+    fn neg(&mut self, _frame: &Frame, e: Expr) -> Expr {
+        // any operand: `-(-x)`, a negated negative literal and a negated computed column used to
+        // be excluded (`--` in the SQL; repaired by fix 95de4f4)
         Expr::Un(UnOp::Neg, Box::new(e))
     }
 
